@@ -757,7 +757,8 @@ func registerBigModels(P *Program) {
 		if v, ok := p.C.V.(BigVal).I.ConstInt(); ok {
 			return v.String()
 		}
-		return "<symbolic big.Int>"
+		// a token that is the same for the same symbolic value (e.g. as a map key)
+		return fmt.Sprintf("<symbolic big.Int #%d>", ex.recvBig(args, "String").V.(BigVal).I.ID)
 	}
 	m["Text"] = m["String"]
 	m["Bits"] = func(ex *Exec, args []Value) Value {
